@@ -61,7 +61,7 @@ def rewrite_casts(body, unit):
     """R5 (general form): `cast(<constant expression>)[.unwrap()]` -> the model scalar holding exactly that real"""
     out = ''
     i = 0
-    for m in re.finditer(r'(?<![A-Za-z0-9_.])cast\(', body):
+    for m in re.finditer(r'(?<![A-Za-z0-9_.])cast(?:\s*::\s*<[^()]*?>)?\(', body):
         if m.start() < i:
             continue
         depth, j = 1, m.end()
